@@ -14,65 +14,15 @@ set_option linter.unusedSectionVars false
 namespace Brax.C01
 open Brax Kin KinPos KinVel
 
-/-- **one link**: brax's world transform of a link equals MuJoCo's body pose, given the same
-parent pose (a unit quaternion), and is again a unit quaternion -/
-theorem link_pose_eq (p : Int) (par : Option (Tf ℝ × Motion ℝ)) (par' : Option (Tf ℝ))
+/-- **one link** (restated from `Lemmas/KinPos`): brax's world transform of a link equals MuJoCo's
+body pose, given the same parent pose (a unit quaternion), and is again a unit quaternion -/
+theorem link_pose_eq_mj (p : Int) (par : Option (Tf ℝ × Motion ℝ)) (par' : Option (Tf ℝ))
     (lk : LinkP ℝ) (l : LinkIn ℝ) (jd : Motion ℝ)
     (hpar : OptRel (fun (x : Tf ℝ × Motion ℝ) (s : Tf ℝ) => x.1 = s ∧ s.rot.IsUnit) par par')
     (hok : LinkOK p lk l) (hroot : p < 0 → par = none) :
     (world par (placeJoint lk (jcalc l).1, jd)).1 = Mj.bodyPose par' lk l
-      ∧ (Mj.bodyPose par' lk l).rot.IsUnit := by
-  by_cases hfree : l.typ = .free
-  · -- free link: a root; q is the world pose
-    obtain ⟨hp, htf, hjp, hqd, p0, p1, p2, r0, r1, r2, r3, hq, hu⟩ := hok.free hfree
-    have hnone := hroot hp
-    subst hnone
-    cases hpar
-    obtain ⟨v0, v1, v2, w0, w1, w2, hqd'⟩ : ∃ v0 v1 v2 w0 w1 w2, l.qd = [v0, v1, v2, w0, w1, w2] := by
-      match hm : l.qd, hqd with
-      | [a, b, c, d, e, f], _ => exact ⟨a, b, c, d, e, f, rfl⟩
-    have hj : (jcalc l).1 = ⟨⟨p0, p1, p2⟩, ⟨r0, r1, r2, r3⟩⟩ := by
-      unfold jcalc; rw [hfree]; simp only [hq, hqd']
-    have hpose : Mj.bodyPose none lk l = ⟨⟨p0, p1, p2⟩, ⟨r0, r1, r2, r3⟩⟩ := by
-      unfold Mj.bodyPose; rw [hfree]; simp only [hq, normalize4_unit hu]
-    rw [hpose, hj]
-    refine ⟨?_, hu⟩
-    simp only [world, placeJoint_eq lk _ hok.jointRot, htf, hjp, stackPose, Tf.id_doTf, rotate_zero,
-      V3.add_zero', V3.sub_def, V3.zero, sub_zero]
-    congr 1
-    apply V3.ext' <;> simp [rotate, V3.dot, V3.cross, Q4.vec]
-  · -- hinge/slide stack
-    obtain ⟨hq, hqd, hd⟩ := hok.nonfree hfree
-    have hj := jcalc_fst_nonfree l hfree hq hqd
-    rw [hj, placeJoint_eq lk _ hok.jointRot]
-    -- the start pose and its unit quaternion
-    have key : ∀ (start : Tf ℝ), start.rot.IsUnit →
-        (l.dofs.zip l.q).foldl (Mj.applyJoint lk.joint.pos) start
-          = stackPose start lk.joint.pos (stackTf (l.dofs.zip l.q))
-        ∧ (stackTf (l.dofs.zip l.q)).rot.IsUnit := by
-      intro start hs
-      have := foldl_applyJoint start lk.joint.pos hs (l.dofs.zip l.q) Tf.id Q4.isUnit_one hd
-      rw [stackPose_id] at this
-      exact this
-    have hunitPose : ∀ (start : Tf ℝ), start.rot.IsUnit →
-        (stackPose start lk.joint.pos (stackTf (l.dofs.zip l.q))).rot.IsUnit := by
-      intro start hs
-      simp only [stackPose, Tf.doTf]
-      exact Q4.IsUnit.mul hs (key start hs).2
-    have hstartU : (startPose par' lk).rot.IsUnit := by
-      cases hpar with
-      | none => exact hok.bodyUnit
-      | some hab => simp only [startPose, Tf.doTf]; exact Q4.IsUnit.mul hab.2 hok.bodyUnit
-    rw [bodyPose_nonfree par' lk l hfree, (key _ hstartU).1, normalize4_unit (hunitPose _ hstartU)]
-    refine ⟨?_, hunitPose _ hstartU⟩
-    cases hpar with
-    | none => rfl
-    | @some a b hab =>
-      obtain ⟨a1, a2⟩ := a
-      obtain ⟨hab1, _⟩ := hab
-      simp only at hab1
-      subst hab1
-      simp only [world, startPose, stackPose, Tf.doTf_assoc]
+      ∧ (Mj.bodyPose par' lk l).rot.IsUnit :=
+  link_pose_eq p par par' lk l jd hpar hok hroot
 
 /-- all links of a system with state `q`, `qd` satisfy `LinkOK` -/
 def KinOK (s : Sys ℝ) (q qd : List ℝ) : Prop :=
